@@ -418,6 +418,12 @@ pub fn check(case: &Case, res: &RunResult, status: &str) -> Vec<(String, String)
     let mut sends: Vec<&LOp> = ops.iter().filter(|o| is_send(&o.form)).collect();
     sends.sort_by_key(|o| if o.fut.is_some() { o.ret.unwrap_or(usize::MAX) } else { o.call });
     for o in sends {
+      // a manually polled BATCH future that was Pending at least once (or was dropped) hands its values over
+      // across several polls: when each took effect is not observable from the call/return log, so its
+      // values are left out of the per-producer order judgement (single-value futures and direct calls stay)
+      if o.fut.is_some() && o.vals.len() > 1 && (o.polled_pending || o.cancelled.is_some()) {
+        continue;
+      }
       for v in &o.vals {
         // broadcast contiguity is judged on the values that were actually sent
         if spmc && !sent_ok.contains_key(v) {
